@@ -137,7 +137,8 @@ class Context(object):
     }
     if self.known_hits:
       ev['coverage']['known_findings_reproduced'] = sorted(self.known_hits)
-    d = os.path.join(VERIF, 'evidence')
+    # (runs against a deliberately modified tree - tools/trymut.sh - must not clobber the committed evidence)
+    d = os.environ.get('VERIF_EVIDENCE_DIR') or os.path.join(VERIF, 'evidence')
     os.makedirs(d, exist_ok=True)
     path = os.path.join(d, '%s.json' % self.prop)
     tmp = path + '.tmp.%d' % os.getpid()
